@@ -173,6 +173,9 @@ Subst(body, fs, m) ==
   IN IF i # 0 THEN (IF m[i] = <<>> THEN <<[k |-> "gap", n |-> "", a |-> <<>>, g |-> FALSE]>> ELSE SetGlueLast(m[i], h.g)) \o r
      ELSE IF h.k = "use" /\ h.a # <<>> THEN <<[h EXCEPT !.a = <<SubstArgs(h.a[1], fs, m)>>]>> \o r
      ELSE IF h.k = "bqs" THEN <<[k |-> "str", n |-> "\"" \o BqText(h.a, fs, m) \o "\"", a |-> <<>>, g |-> h.g]>> \o r
+     \* a conditional inside the body: formals are substituted in both branches, the choice is made when the
+     \* expansion is rescanned
+     ELSE IF h.k = "cond" THEN <<[h EXCEPT !.a = <<[h.a[1] EXCEPT !.a = Subst(h.a[1].a, fs, m)], [h.a[2] EXCEPT !.a = Subst(h.a[2].a, fs, m)]>>]>> \o r
      ELSE <<h>> \o r
 SubstArgs(acts, fs, m) ==
   IF acts = <<>> THEN <<>> ELSE <<Subst(Head(acts), fs, m)>> \o SubstArgs(Tail(acts), fs, m)
@@ -199,6 +202,7 @@ RECURSIVE ActualToks(_, _)
 BItem(k, n, a, ts, g) ==
   [k |-> k, n |-> n, a |-> a, b |-> <<>>, f |-> 0, ts |-> ts, to |-> [i \in 1..Len(ts) |-> 0],
    off |-> 0, ln |-> 0, ln2 |-> 0, g |-> g]
+RECURSIVE BodyItem(_), BodyItems(_)
 BodyItem(t) ==
   CASE t.k \in {"lit", "id", "str"} -> <<BItem(IF t.k = "str" THEN "str" ELSE "tok", t.n, <<>>, <<t.n>>, t.g)>>
     [] t.k = "use" -> <<BItem("use", t.n, t.a, <<>>, t.g)>>
@@ -210,8 +214,11 @@ BodyItem(t) ==
     [] t.k = "undefall" -> <<BItem("undefall", "", <<>>, <<"`", "undefineall">>, FALSE)>>  \* when the expansion is rescanned
     [] t.k = "cmt" -> <<BItem("cmt", t.n, <<>>, <<t.n>>, t.g)>>     \* a block comment inside a body is part of the expansion
     [] t.k = "inc" -> <<BItem("inc", t.n, <<>>, <<>>, FALSE)>>      \* a body that contains `include "f"
+    \* `ifdef N <then> `else <else> `endif written inside a body (t.s = "ifdef" | "ifndef"; t.a = <<then group, else group>>):
+    \* the directives are executed when the expansion is rescanned, against the define table of that moment
+    [] t.k = "cond" -> <<BItem(t.s, t.n, <<>>, <<>>, FALSE)>> \o BodyItems(t.a[1].a) \o <<BItem("else", "", <<>>, <<>>, FALSE)>>
+                       \o BodyItems(t.a[2].a) \o <<BItem("endif", "", <<>>, <<>>, FALSE)>>
     [] OTHER -> <<>>       \* "cont" (line continuation) and "lcmt" (// comment) contribute no token
-RECURSIVE BodyItems(_)
 BodyItems(ts) == IF ts = <<>> THEN <<>> ELSE BodyItem(Head(ts)) \o BodyItems(Tail(ts))
 
 \* argument list as written (restored behind the body of a macro without formals)
